@@ -35,10 +35,12 @@ import (
 	"strconv"
 	"strings"
 	"sync"
+	"sync/atomic"
 	"time"
 
 	"github.com/hydraide/hydraide/app/core/settings"
 	"github.com/hydraide/hydraide/app/name"
+	"github.com/hydraide/hydraide/app/verifhook"
 	hydrapb "github.com/hydraide/hydraide/sdk/go/hydraidego/v3/hydraidepbgo"
 	"github.com/vmihailenco/msgpack/v5"
 	"google.golang.org/grpc/metadata"
@@ -669,6 +671,31 @@ func c08Gen(rng *rand.Rand, tier string, w *bufio.Writer) {
 	fmt.Fprintln(w, "q key desc 0 0 - - 0 &(a~eq~i64:1~,b~ne~s:b~)")
 	fmt.Fprintln(w, "q created desc 0 0 2 9 2 |(a~eq~f64:4~,b~sin~s:a;b~)")
 
+	// corpus 5h: a first query is held inside GetOrBuildBucket after BuildEquality, before DrainPending
+	// (forced schedule through the hook): saves and a delete arrive meanwhile, a second reader comes
+	fmt.Fprintln(w, "case 5h")
+	fixed("k1", 1, 0, 0, "{a:i1}", mk("a", I(1)))
+	fixed("k2", 2, 0, 0, "{a:i2}", mk("a", I(2)))
+	fmt.Fprintln(w, "bq built key asc 0 0 - - 0 &(a~eq~i64:1~)")
+	fixed("k3", 3, 0, 0, "{a:i1}", mk("a", I(1)))
+	fmt.Fprintln(w, "q key asc 0 0 - - 0 &(a~eq~i64:1~)")
+	fixed("k1", 0, 0, 0, "{a:i2}", mk("a", I(2)))
+	fmt.Fprintln(w, "del k2")
+	fmt.Fprintln(w, "q key asc 0 0 - - 0 &(a~eq~i64:2~)")
+	fmt.Fprintln(w, "release")
+	fmt.Fprintln(w, "q key asc 0 0 - - 0 &(a~eq~i64:1~)")
+	fmt.Fprintln(w, "q key asc 0 0 - - 0 &(a~eq~i64:2~)")
+	// corpus 5s: held after the snapshot, before BuildEquality: the saves are in the pending buffer only
+	fmt.Fprintln(w, "case 5s")
+	fixed("k1", 1, 0, 0, "{a:i1}", mk("a", I(1)))
+	fixed("k2", 2, 0, 0, "{a:i1}", mk("a", I(1)))
+	fmt.Fprintln(w, "bq snap created asc 0 0 - - 0 &(a~eq~i64:1~)")
+	fixed("k3", 3, 0, 0, "{a:i1}", mk("a", I(1)))
+	fixed("k1", 0, 0, 0, "{a:i5}", mk("a", I(5)))
+	fmt.Fprintln(w, "del k2")
+	fmt.Fprintln(w, "release")
+	fmt.Fprintln(w, "q created asc 0 0 - - 0 &(a~eq~i64:1~)")
+	fmt.Fprintln(w, "q key desc 0 0 - - 0 &(a~eq~i64:5~)")
 	for c := 6; c < cases; c++ {
 		persistent := c%3 == 0
 		if persistent {
@@ -702,9 +729,31 @@ func c08Gen(rng *rand.Rand, tier string, w *bufio.Writer) {
 		seenKey := map[int]bool{}
 		bodies := map[int]*c08Val{}
 		n := 5 + rng.Intn(maxLen)
+		held := 0 // > 0: a first query is held inside GetOrBuildBucket; released when it reaches 1
 		for i := 0; i < n; i++ {
 			r := rng.Intn(100)
+			if held > 0 {
+				held--
+				if held == 0 {
+					fmt.Fprintln(w, "release")
+					continue
+				}
+				if r >= 45 && r < 55 {
+					r = 0 // while a build is held: saves and queries only (a delete could empty the swamp, a reload closes it)
+				}
+			}
 			switch {
+			case r >= 55 && r < 63 && held == 0 && !paging && len(bodies) > 0 && c%2 == 0:
+				// hold the builder of a field bucket: after its snapshot, or after BuildEquality
+				ks := make([]int, 0, len(bodies))
+				for k := range bodies {
+					ks = append(ks, k)
+				}
+				sort.Ints(ks)
+				seed := bodies[ks[rng.Intn(len(ks))]]
+				fmt.Fprintf(w, "bq %s %s %s 0 0 - - 0 %s\n", []string{"snap", "built"}[rng.Intn(2)],
+					[]string{"key", "created"}[rng.Intn(2)], []string{"asc", "desc"}[rng.Intn(2)], c08Group(rng, 1, 0, 0, seed))
+				held = 2 + rng.Intn(4)
 			case r < 45 || len(seenKey) == 0:
 				k := rng.Intn(nKeys)
 				cT, uT, eT := ts(k)
@@ -758,6 +807,9 @@ func c08Gen(rng *rand.Rand, tier string, w *bufio.Writer) {
 				}
 				fmt.Fprintf(w, "q %s %s %d %d %s %s %d %s\n", idx, ord, from, limit, ft, tt, max, c08Group(rng, 2, labelP, special, seed))
 			}
+		}
+		if held > 0 {
+			fmt.Fprintln(w, "release")
 		}
 	}
 }
@@ -995,6 +1047,18 @@ func c08Run(in *bufio.Scanner, w *bufio.Writer) {
 	ctx := context.Background()
 	swampName := ""
 	seenPaths := map[string]bool{}
+	// a first query held inside GetOrBuildBucket (op bq), until op release
+	var heldRelease chan struct{}
+	var heldDone chan string
+	release := func() {
+		if heldRelease != nil {
+			close(heldRelease)
+			<-heldDone
+			heldRelease, heldDone = nil, nil
+			verifhook.SetHandler(nil)
+		}
+	}
+	defer release()
 	tsOf := func(s string) *timestamppb.Timestamp {
 		v, _ := strconv.ParseInt(s, 10, 64)
 		if v == 0 {
@@ -1021,7 +1085,66 @@ func c08Run(in *bufio.Scanner, w *bufio.Writer) {
 				}
 			}()
 			switch {
+			case f[0] == "release" && len(f) == 1:
+				release()
+				return "ok"
+			case f[0] == "bq" && len(f) == 10:
+				// the accelerated route only, held at the named point of GetOrBuildBucket if it gets there
+				it, ok := c07IndexType(f[2])
+				from, e1 := strconv.ParseInt(f[4], 10, 32)
+				limit, e2 := strconv.ParseInt(f[5], 10, 32)
+				ft, ok1 := c08OptTS(f[6])
+				tt, ok2 := c08OptTS(f[7])
+				max, e3 := strconv.ParseInt(f[8], 10, 32)
+				g, okg := c08ParseGroup(f[9])
+				if !ok || e1 != nil || e2 != nil || e3 != nil || !ok1 || !ok2 || !okg || heldRelease != nil ||
+					(f[1] != "snap" && f[1] != "built") || (f[3] != "asc" && f[3] != "desc") {
+					return "bad-op"
+				}
+				ord := hydrapb.OrderType_ASC
+				if f[3] == "desc" {
+					ord = hydrapb.OrderType_DESC
+				}
+				// the ordered index the scan route walks is built first, alone (C07's subject)
+				{
+					st := &c08Stream{ctx: ctx}
+					_ = rig.GW.GetByIndexStream(&hydrapb.GetByIndexStreamRequest{IslandID: 1, SwampName: swampName, IndexType: it, OrderType: ord,
+						Filters: &hydrapb.FilterGroup{Logic: hydrapb.FilterLogic_OR, SubGroups: []*hydrapb.FilterGroup{g}}}, st)
+				}
+				c08NewPath(seenPaths, f[9])
+				point := "bucket." + map[string]string{"snap": "snapshot", "built": "built"}[f[1]]
+				var armed int32 = 1
+				reached := make(chan struct{}, 1)
+				rel := make(chan struct{})
+				verifhook.SetHandler(func(name string, args ...any) {
+					if name == point && atomic.CompareAndSwapInt32(&armed, 1, 0) {
+						reached <- struct{}{}
+						<-rel
+					}
+				})
+				done := make(chan string, 1)
+				go func() {
+					st := &c08Stream{ctx: ctx}
+					err := rig.GW.GetByIndexStream(&hydrapb.GetByIndexStreamRequest{IslandID: 1, SwampName: swampName,
+						IndexType: it, OrderType: ord, From: int32(from), Limit: int32(limit), FromTime: ft, ToTime: tt,
+						MaxResults: int32(max), Filters: g}, st)
+					if err != nil {
+						done <- "err"
+						return
+					}
+					done <- strings.Join(st.out, ",")
+				}()
+				select {
+				case <-reached:
+					heldRelease, heldDone = rel, done
+					return "held"
+				case <-done:
+					atomic.StoreInt32(&armed, 0)
+					verifhook.SetHandler(nil)
+					return "done"
+				}
 			case f[0] == "case" && len(f) == 2:
+				release()
 				if strings.HasSuffix(f[1], "p") {
 					swampName = name.New().Sanctuary("c08p").Realm("routes").Swamp("case" + f[1]).Get()
 				} else {
